@@ -11,8 +11,8 @@ NSLICES = 64
 
 def universe(tier):
     if tier == 'quick':
-        return list(ox.scripts(4, KINDS))
-    return list(ox.scripts(5, KINDS_T, leaves=[('none',), ('int', 1), ('dstr', 'xy')]))
+        return list(ox.scripts(4, KINDS, leaves=ox.LEAVES + [('bytes', b'ab')]))
+    return list(ox.scripts(5, KINDS_T, leaves=[('none',), ('int', 1), ('dstr', 'xy'), ('bytes', b'ab')]))
 
 
 def init():
@@ -76,7 +76,7 @@ def graph_job(job, st):
         r = objs[-1]
         res['ctr']['states'] += 1
         refs = [i for s in script for i in s[1:] if isinstance(i, int)] + [i for s in script if s[0] == 'dict' for _, i in s[1:]]
-        if len(set(refs)) < len(refs) or sum(1 for s in script if s[0] in ('none', 'int', 'str')) > 1:
+        if len(set(refs)) < len(refs) or sum(1 for s in script if s[0] in ('none', 'int', 'str', 'bytes')) > 1:
             res['ctr']['nontrivial'] += 1
         for name, fi, fr in (('visit', lambda: [id(x) for x in g.visit(r)], lambda: ref_visit(g, r)),
                              ('traverse', lambda: impl_traverse(g, r), lambda: ref_traverse(g, r))):
